@@ -77,6 +77,14 @@ def build_form(kind, c):
         V = c.V("DG", 0)
         u, v = TrialFunction(V), TestFunction(V)
         return inner(jump(u), jump(v)) * dS, V, None
+    if kind in ("two_rules_a", "two_rules_b"):
+        # two quadrature rules in one interior-facet integral: one couples '+' and '-', the other is one-sided
+        V = c.V("DG", 1)
+        u, v = TrialFunction(V), TestFunction(V)
+        hi, lo = (2, 1) if kind == "two_rules_a" else (4, 2)
+        t1 = inner(jump(u), jump(v)) * dS(metadata={"quadrature_degree": hi})
+        t2 = inner(u("+"), v("+")) * dS(metadata={"quadrature_degree": lo})
+        return (t1 + t2 if kind == "two_rules_a" else t2 + t1), V, None
     if kind == "one_restriction":
         V = c.V("DG", 1)
         u, v = TrialFunction(V), TestFunction(V)
@@ -320,7 +328,7 @@ def run_case(case):
 
 def cases_for(tier, s):
     R = []
-    forms = ["mass_jump", "grad_jump_normal", "p2_avg", "vector_dg", "coef_one_side", "x_weight", "dg0", "one_restriction"]
+    forms = ["mass_jump", "grad_jump_normal", "p2_avg", "vector_dg", "coef_one_side", "x_weight", "dg0", "one_restriction", "two_rules_a", "two_rules_b"]
     plan = {"interval": None, "triangle": None, "quadrilateral": None, "tetrahedron": 64 if tier == "quick" else None, "hexahedron": 40 if tier == "quick" else 600}
     for cell, limit in plan.items():
         for fk in forms:
@@ -340,8 +348,8 @@ def main(tier, replay=None):
         PID, tier, "exploration",
         "for each (cell, form) one interior-facet kernel is compiled and called for numbering pairs of two physical cells sharing a facet: interval 2x2, triangle 6x6=36, "
         "quadrilateral 8x8=64 (EXHAUSTIVE), tetrahedron 24x24=576 and hexahedron 48x48=2304 (seeded samples of 64/40 pairs in quick; all 576 tetrahedron pairs and 600 hexahedron "
-        "pairs in thorough) x all coincidence-making permutation code pairs (2/6/8 per numbering pair, found from geometry with the documented semantics) x 8 forms (mass jump, "
-        "gradient jump with normals, P2 avg, vector DG, coefficient on one side, x-dependent weight, DG0, single restriction); results are mapped to global dof numbering by "
+        "pairs in thorough) x all coincidence-making permutation code pairs (2/6/8 per numbering pair, found from geometry with the documented semantics) x 10 forms (mass jump, "
+        "gradient jump with normals, P2 avg, vector DG, coefficient on one side, x-dependent weight, DG0, single restriction, two rules in one integral in both orders); results are mapped to global dof numbering by "
         "physical dof location and compared with the reference numbering (1e-11), sampled against the oracle; the kernel's own int|x+ - x-|^2 probe must vanish for those "
         "codes; kernels with needs_facet_permutations=false must be bitwise independent of the codes; distinct non-trivial = numbering pairs checked clean",
         ["the rotation/reflection convention is ffcx's documentation as read by the oracle; agreement with the code in DOLFINx that computes the codes cannot be observed here",
